@@ -860,7 +860,7 @@ func main() {
 		"w.createBlindedMessages", "constructProofs", "w.getActiveKeyset", "w.counterForKeyset", "w.AddMint",
 		"nut11.AddSignatureToInputs", "nut11.AddSignatureToOutputs", "nut14.AddWitnessHTLC", "nut14.AddWitnessHTLCToOutputs",
 		"selectProofsToSend", "blindedMessagesFromSpendingCondition", "w.splitWalletTarget", "feesForProofs", "feesForCount",
-		"cashu.AmountSplit", "nut12.VerifyProofsDLEQ", "generateDeterministicSecret"} {
+		"cashu.AmountSplit", "nut12.VerifyProofsDLEQ", "verifyProofsDLEQ", "generateDeterministicSecret"} {
 		walletHelpers[h] = true
 	}
 	walletCfg := &skelCfg{
@@ -873,6 +873,10 @@ func main() {
 		"createSwapRequest", "selectProofsForAmount", "RequestMint", "MintQuoteState", "RequestMeltQuote"} {
 		emitSkel("wskel_"+fn, skeleton(findFunc(walletP, "Wallet", fn), walletCfg))
 	}
+	// (F19) the per-keyset DLEQ verification of Receive / ReceiveHTLC
+	emitSkel("wskel_verifyProofsDLEQ", skeleton(findFunc(walletP, "", "verifyProofsDLEQ"), &skelCfg{
+		names:  map[string]bool{"GetKeysetKeys": true, "nut12.VerifyProofsDLEQ": true},
+		rename: func(s string) string { return s }}))
 	emitSkel("wskel_Restore", skeleton(findFunc(walletP, "", "Restore"), walletCfg))
 	emitSkel("wskel_swap", skeleton(findFunc(walletP, "", "swap"), walletCfg))
 	emitSkel("wskel_selectProofsToSend", skeleton(findFunc(walletP, "", "selectProofsToSend"), walletCfg))
